@@ -528,3 +528,72 @@ Definition waits (v : variant) (c : chanctx) (r : req) : bool :=
       end
   | _, _ => false
   end.
+
+(* ---------- proposal.go: the parent lock of handleChannelProposal ---------- *)
+(* prepareChannelOpening locks the machine mutex of the proposal's parent channel (sub-channel and
+   virtual channel proposals; looked up from the proposal's Parent field); the user's handler runs; the
+   deferred cleanupChannelOpening looks the parent up again from the same field and unlocks it.
+   Several proposals are in flight at once (one goroutine each, the user answers when he likes). *)
+Record pmsg := mkPM { pm_id : bytes (* ProposalID, chosen by the proposer *); pm_parent : option bytes }.
+Inductive pev :=
+| PArrive (p : pmsg)     (* prepareChannelOpening has returned: the lock is taken, the handler is called *)
+| PReturn (p : pmsg).    (* the handler has returned: cleanupChannelOpening *)
+Inductive pres := PLocks (locked : list bytes) | PWait | PPanic.
+Definition id_in (x : bytes) (l : list bytes) : bool := existsb (bytes_eqb x) l.
+Fixpoint remove1 (x : bytes) (l : list bytes) : option (list bytes) :=
+  match l with
+  | [] => None
+  | y :: r => if bytes_eqb x y then Some r
+              else match remove1 x r with Some r' => Some (y :: r') | None => None end
+  end.
+(* known: the channels of the client *)
+Definition pstep (known locked : list bytes) (e : pev) : pres :=
+  match e with
+  | PArrive p =>
+      match pm_parent p with
+      | None => PLocks locked
+      | Some par =>
+          if id_in par known
+          then if id_in par locked then PWait (* TryLockCtx waits for the holder *) else PLocks (par :: locked)
+          else PLocks locked        (* "referenced parent channel not found": dropped, no clean-up *)
+      end
+  | PReturn p =>
+      match pm_parent p with
+      | None => PLocks locked
+      | Some par =>
+          if id_in par known
+          then match remove1 par locked with
+               | Some l => PLocks l
+               | None => PPanic     (* tried to unlock unlocked mutex *)
+               end
+          else PLocks locked
+      end
+  end.
+Fixpoint prun (known locked : list bytes) (evs : list pev) : pres :=
+  match evs with
+  | [] => PLocks locked
+  | e :: r => match pstep known locked e with
+              | PLocks l => prun known l r
+              | x => x
+              end
+  end.
+(* every return belongs to a proposal that arrived and has not returned yet *)
+Definition pmsg_eqb (a b : pmsg) : bool :=
+  bytes_eqb (pm_id a) (pm_id b) &&
+  match pm_parent a, pm_parent b with
+  | Some x, Some y => bytes_eqb x y
+  | None, None => true
+  | _, _ => false
+  end.
+Fixpoint remove_pm (p : pmsg) (l : list pmsg) : option (list pmsg) :=
+  match l with
+  | [] => None
+  | q :: r => if pmsg_eqb p q then Some r
+              else match remove_pm p r with Some r' => Some (q :: r') | None => None end
+  end.
+Fixpoint in_flight (infl : list pmsg) (evs : list pev) : option (list pmsg) :=
+  match evs with
+  | [] => Some infl
+  | PArrive p :: r => in_flight (p :: infl) r
+  | PReturn p :: r => match remove_pm p infl with Some i => in_flight i r | None => None end
+  end.
